@@ -41,3 +41,9 @@ pub(crate) fn transpose_bitmatrix(input: &[u8], output: &mut [u8], rows: usize) 
     #[cfg(not(any(target_arch = "x86", target_arch = "x86_64")))]
     portable::transpose_bitmatrix(input, output, rows);
 }
+
+/// The portable implementation, independent of runtime dispatch.
+#[cfg(feature = "__verif")]
+pub(crate) fn verif_portable_transpose_bitmatrix(input: &[u8], output: &mut [u8], rows: usize) {
+    portable::transpose_bitmatrix(input, output, rows);
+}
